@@ -15,31 +15,10 @@
   that do or do not override the vectored methods, splits of readers and writers, writes,
   vectored writes, write_from(_at), write_all_from, commit), by induction over the list.
 -/
-import Fbr.Lemmas.XportSys
+import Fbr.Lemmas.XportStart
 
 namespace Fbr.Thm.C17
 open Fbr.Xport
-
-/-- a virtio-fs request before the server touched it: nothing logged, nothing dirty, no fusedev
-    writer, a positive page size, counters that cannot overflow `usize` (what
-    `from_descriptor_chain` / `VirtioFsWriter::new` guarantee by their `checked_add`) -/
-def Start (st : St) : Prop :=
-  st.w.log = [] ∧ st.w.dirty = [] ∧ st.fws = [] ∧ 0 < st.w.p
-    ∧ (∀ b ∈ st.readers, b.consumed + total b.segs < USIZE)
-    ∧ (∀ b ∈ st.writers, b.consumed + total b.segs < USIZE)
-
-/-- all addresses the readers (resp. writers) of a state may still touch -/
-def readable (st : St) : List Addr := st.readers.flatMap fun b => addrs b.segs
-def writable (st : St) : List Addr := st.writers.flatMap fun b => addrs b.segs
-
-theorem start_inv {st : St} (h : Start st) :
-    Inv (readable st) (writable st) (sizes st.readers) (sizes st.writers) st := by
-  obtain ⟨hl, hd, hf, hp, hr, hw⟩ := h
-  refine ⟨⟨hp, by simp [hl, rdAddrs], by simp [hl, wrAddrs], by simp [hl, wrAddrs], by simp [hd]⟩, ?_, ?_, rfl, rfl, hf⟩
-  · intro b hb
-    exact ⟨fun a ha => List.mem_flatMap.mpr ⟨b, hb, ha⟩, hr b hb⟩
-  · intro b hb
-    exact ⟨fun a ha => List.mem_flatMap.mpr ⟨b, hb, ha⟩, hw b hb⟩
 
 /-- **dirty ⊇ written**: whatever the server did, every byte address it wrote lies in a page that
     is marked dirty. -/
@@ -60,6 +39,18 @@ theorem dirty_only_in_reply_space (st : St) (ops : List Op) (h : Start st) :
   have hi := exec_inv ops (start_inv h)
   obtain ⟨a, ha, e⟩ := hi.w.dirty_sub x hx
   exact ⟨a, hi.w.wr_in a ha, ha, e⟩
+
+/-- **Unused reply space stays clean** (up to page sharing): when the writable buffers do not
+    overlap, every dirty page is justified by an address that was written and is no longer ahead
+    of any writer — space a writer has not consumed never causes a mark. -/
+theorem unused_reply_space_stays_clean (st : St) (ops : List Op) (h : Start st) (hnd : (writable st).Nodup) :
+    ∀ x ∈ (exec st ops).w.dirty, ∃ a ∈ wrAddrs (exec st ops).w.log,
+      a ∉ ahead (exec st ops).writers ∧ pageOf (exec st ops).w.p a = x := by
+  intro x hx
+  obtain ⟨a, ha, e⟩ := dirty_subset st ops h x hx
+  have hperm := (exec_once ops (start_inv h) (start_once h)).2
+  have hnd' := (hperm.nodup_iff).mpr hnd
+  exact ⟨a, ha, fun hah => (List.nodup_append.mp hnd').2.2 a ha a hah rfl, e⟩
 
 /-- Reader operations (any of them, any number) never mark anything. -/
 theorem reads_mark_nothing (st : St) (ops : List Op) (h : Start st) (hw : st.writers = []) :
@@ -112,16 +103,11 @@ theorem pages_of_range_exact (p : Nat) (hp : 0 < p) (s : Seg) (x : Nat × Nat) :
 
 /-! ### non-vacuity -/
 
-/-- a chain with a zero-length buffer, buffers straddling page borders of page size 64, two
-    regions; one reader, one writer -/
-def exampleStart : St :=
-  { w := { p := 64, mem := ⟨[(1, List.replicate 300 0), (2, List.replicate 300 0)]⟩, dirty := [], log := [], fd := [] },
-    readers := [{ segs := [⟨1, 10, 8⟩, ⟨1, 20, 0⟩], consumed := 0 }],
-    writers := [{ segs := [⟨1, 60, 10⟩, ⟨2, 0, 0⟩, ⟨2, 100, 130⟩], consumed := 0 }],
-    fws := [] }
-
 example : Start exampleStart := by
   refine ⟨rfl, rfl, rfl, by decide, ?_, ?_⟩ <;> decide
+
+/-- `unused_reply_space_stays_clean`: its writable buffers do not overlap -/
+example : (writable exampleStart).Nodup := by decide +kernel
 
 /-- and the theorems say something there: a split writer, a short `write_from`, a header write -/
 example :
